@@ -839,7 +839,7 @@ class Engine:
                 return None
             rv = d[3]
             if rv["k"] == "use" and "promoted" in rv["a"]:
-                pv = self.F.promoted_value(body, rv["a"]["promoted"])
+                pv = self.F.promoted_value(rv["a"].get("pof", body.path), rv["a"]["promoted"])   # pof: spliced-in code keeps its owner's constants
                 if isinstance(pv, tuple) and pv[0] == "variant":
                     return ("var", pv[1], pv[2])
                 if isinstance(pv, tuple) and pv[0] == "int":
